@@ -162,6 +162,23 @@ def plant_junk(build):
         p = os.path.join(build, rel)
         open(p, 'w').write(t)
         j.append(rel)
+    # entries in the ROOT of the build directory named like by-name ignore entries (a file and a directory): nothing a
+    # run leaves there may change what the ignore lists remove
+    bare = []
+    for mf in sorted(os.listdir(os.path.join(C.REPO, 'dists/ignore'))):
+        for l in open(os.path.join(C.REPO, 'dists/ignore', mf), errors='replace'):
+            l = l.split('#')[0].strip()
+            if l and '/' not in l and l not in bare:
+                bare.append(l)
+    for i, n in enumerate(bare[:4]):
+        q = os.path.join(build, n)
+        if os.path.lexists(q):
+            continue
+        if i % 2:
+            os.makedirs(q)
+        else:
+            open(q, 'w').write('stale\n')
+        j.append(n)
     ro = os.path.join(build, 'apparmor.d/zz-readonly'); open(ro, 'w').write('ro\n'); os.chmod(ro, 0o444)
     os.symlink('../zz-stale-profile', os.path.join(build, 'apparmor.d/disable/zz-stale-profile'))
     os.symlink('/nonexistent', os.path.join(build, 'apparmor.d/zz-dangling'))
@@ -202,9 +219,10 @@ def _job(job):
     shutil.rmtree(build, ignore_errors=True)
     _reset_src(wdir, _W['snap'])
     prior = job.get('prior')
+    rootjunk = []
     if prior == 'junk':
         os.makedirs(build)
-        plant_junk(build)
+        rootjunk = [n for n in plant_junk(build) if '/' not in n]
     elif isinstance(prior, dict):       # a Merkle map
         materialise(prior, cas, build)
     res_steps = []
@@ -219,6 +237,15 @@ def _job(job):
         rc = r.returncode; out = r.stdout
         if rc:
             break
+    # entries planted in the ROOT of the build directory are not output of any run (prebuild only ever writes
+    # apparmor.d/, share/ and systemd/ there): whether they are still lying around is not compared, what they did to
+    # the three output directories is
+    for n in rootjunk:
+        q = os.path.join(build, n)
+        if os.path.isdir(q) and not os.path.islink(q):
+            shutil.rmtree(q, ignore_errors=True)
+        elif os.path.lexists(q):
+            os.unlink(q)
     tree = merkle(build, cas) if os.path.isdir(build) else {}
     hide = None
     hp = os.path.join(wdir, 'debian/apparmor.d.hide')
